@@ -119,12 +119,18 @@ class ScriptPolicy(Policy):
         self.divergences = 0
 
     def choose(self, enabled, sched):
+        clients = [t for t in enabled if t.name.startswith('client')]
         while self.pos < len(self.script):
             name = self.script[self.pos]
-            self.pos += 1
             t = next((x for x in enabled if x.name == name), None)
             if t is not None:
+                self.pos += 1
                 return t
+            if clients:
+                # the scripted thread waits for its client: clients are the
+                # environment and move eagerly (the model folds them in)
+                return clients[0]
+            self.pos += 1
             self.divergences += 1
         return self.base.choose(enabled, sched)
 
